@@ -865,7 +865,19 @@ type (
 		cntWrPart
 	}
 
+	// A ListerAt is never told about a transfer error (Request.transferError looks at the reader, the
+	// writer and the read-writer only): the lister variants carry the method all the same, so that a
+	// notification would be SEEN (expected: never).
 	cntLister struct {
+		cntLsPart
+		cntClosePart
+		cntTEPart
+	}
+	cntListerNoClose struct {
+		cntLsPart
+		cntTEPart
+	}
+	cntListerNoTE struct {
 		cntLsPart
 		cntClosePart
 	}
@@ -935,10 +947,16 @@ func (f *cntFS) readWriter(o *cntObj) (v sftp.WriterAtReaderAt) {
 }
 
 func (f *cntFS) lister(o *cntObj) (v sftp.ListerAt) {
-	if nc, _ := f.variant(o); nc {
+	nc, nt := f.variant(o)
+	switch {
+	case nc && nt:
 		v = cntListerBare{cntLsPart{o}}
-	} else {
-		v = cntLister{cntLsPart{o}, cntClosePart{o}}
+	case nc:
+		v = cntListerNoClose{cntLsPart{o}, cntTEPart{o}}
+	case nt:
+		v = cntListerNoTE{cntLsPart{o}, cntClosePart{o}}
+	default:
+		v = cntLister{cntLsPart{o}, cntClosePart{o}, cntTEPart{o}}
 	}
 	o.seal(v)
 	return v
@@ -1123,7 +1141,6 @@ func cntHandlersSelfTest(h sftp.Handlers, cfg ssCfg) string {
 			_, isR := v.(io.ReaderAt)
 			_, isW := v.(io.WriterAt)
 			_, isL := v.(sftp.ListerAt)
-			wantT := wantT && kind != "lister" // a ListerAt is never told about transfer errors: no variant has the method
 			wantR, wantW, wantL := kind == "reader" || kind == "rw", kind == "writer" || kind == "rw", kind == "lister"
 			if hasC != wantC || hasT != wantT || isR != wantR || isW != wantW || isL != wantL || o.HasClose != hasC || o.HasTE != hasT {
 				return fmt.Sprintf("%s object #%d (%T) under without=%q: Closer=%v (want %v) TransferError=%v (want %v) ReaderAt=%v WriterAt=%v ListerAt=%v recorded=%v/%v",
@@ -1200,6 +1217,7 @@ type ssReq struct {
 	HasHandle bool
 	Pf        uint32
 	RdLen     uint32    // READ: the length asked for
+	WrLen     int       // WRITE: the number of data bytes
 	Soft      bool      // attribute block shorter than its flags promise (framing intact)
 	Off, Len  int       // position of the frame in the stream
 	StrOffs   []int     // offsets inside the frame of every string-length field
@@ -1354,7 +1372,7 @@ func ssParseReq(typ byte, body []byte) (q ssReq, why string) {
 	case wire.Write:
 		h()
 		c.f64("offset")
-		c.fstr("data")
+		q.WrLen = len(c.fstr("data"))
 	case wire.Setstat:
 		c.fstr("path")
 		q.Soft = c.attrs()
@@ -1525,6 +1543,17 @@ func ssHandleKind(q ssReq) string {
 // a request server whose FilePut is no OpenFileWriter serves read-write opens through Filewrite,
 // so the handle is a write handle (READ on it does not fit).
 func (t *ssTrack) handleKind(q ssReq) string {
+	if t.cfg.Kind == "os" && q.Kind == "open" {
+		// the os-backed server opens O_RDWR / O_WRONLY / O_RDONLY by the READ and WRITE bits alone
+		// (sshFxpOpenPacket.respond); create / truncate / append / excl do not make a file writable
+		switch r, w := q.Pf&wire.FRead != 0, q.Pf&wire.FWrite != 0; {
+		case r && w:
+			return "rw"
+		case w:
+			return "w"
+		}
+		return "r"
+	}
 	k := ssHandleKind(q)
 	if k == "rw" && t.cfg.Kind == "rs" && !t.cfg.InMem && t.cfg.without("openfile") {
 		return "w"
